@@ -15,43 +15,60 @@ namespace Ombott.TsProps
 open Py
 
 /-- **C10** (every set of applications, every operation sequence incl. copy / construct / nested,
-on one thread or on several): what the operations of application `a` read and are answered is what
-they are answered when all operations of the other applications are deleted. -/
-theorem multi_app_noninterference (ops : List Op) (a : AppId) :
-    readsOf .perInstance a Heap.empty ops =
-      (runOps .perInstance Heap.empty (ops.filter (fun op => op.app = a))).2 :=
-  readsOf_eq_filtered a ops Heap.empty Heap.empty (Agree.refl _) (Own.empty _) (Own.empty _)
+on one thread or on several, from any start heap in which dict references stay inside their
+application — `Heap.boot` after import, or anything reached later): what the operations of
+application `a` read and are answered is what they are answered when all operations of the other
+applications are deleted.  The only hypothesis: no operation writes one of the objects shared by all
+applications (the `HTTPError`s of `errors_map`); reads of them are covered. -/
+theorem multi_app_noninterference (h0 : Heap) (ho : Own ownA h0) (ops : List Op)
+    (hs : ∀ op ∈ ops, op.acc.sharedOk) (a : AppId) :
+    readsOf .perInstance a h0 ops =
+      (runOps .perInstance h0 (ops.filter (fun op => op.app = a))).2 :=
+  readsOf_eq_filtered a ops hs h0 h0 (Agree.refl _) ho ho
+
+/-- process start (`import ombott` done, nothing constructed) is such a heap -/
+theorem boot_owned : Own ownA Heap.boot :=
+  ⟨fun _ _ _ _ h => by simp [Heap.boot, Heap.empty] at h, fun _ _ _ _ h => by simp [Heap.boot, Heap.empty] at h,
+   fun _ _ _ h => by simp [Heap.boot, Heap.empty] at h, fun _ _ _ _ h => by simp [Heap.boot, Heap.empty] at h⟩
 
 /-- **C10 for adaptive programs** (the programs the driver runs: served requests whose handlers may
-call other applications, copy their request, construct applications): for every assignment of
-programs to threads and every interleaving, the results of the steps made in application `a`, as
-logged, are what replaying only those steps from process start gives. -/
-theorem multi_app_noninterference_machine (progs : ThreadId → Prog) (sched : List ThreadId) (a : AppId) :
+call other applications, copy their request, construct applications, fail onto a shared mapped
+error): for every assignment of programs to threads and every interleaving, the results of the
+steps made in application `a`, as logged, are what replaying only those steps from process start
+gives — provided the run wrote no shared error object (decidable on the log; the programs of
+`Model/WsgiConc.lean` contain no such step). -/
+theorem multi_app_noninterference_machine (progs : ThreadId → Prog) (sched : List ThreadId) (a : AppId)
+    (hs : ∀ e ∈ (run .perInstance (Machine.start progs) sched).log, e.acc.sharedOk) :
     (((run .perInstance (Machine.start progs) sched).log.filter (fun e => e.app = a)).map (·.res)) =
-      (runOps .perInstance Heap.empty
+      (runOps .perInstance Heap.boot
         (((run .perInstance (Machine.start progs) sched).log.map Event.op).filter (fun op => op.app = a))).2 := by
-  have hl : LogOk .perInstance Heap.empty (run .perInstance (Machine.start progs) sched) :=
+  have hl : LogOk .perInstance Heap.boot (run .perInstance (Machine.start progs) sched) :=
     run_logOk _ _ _ _ (by simp [LogOk, Machine.start, Machine.on, runOps])
-  rw [← multi_app_noninterference, readsOf_log]
-  rw [hl]
+  rw [← multi_app_noninterference Heap.boot boot_owned _ _ a, readsOf_log]
+  · rw [hl]
+  · intro op hop
+    simp only [List.mem_map] at hop
+    obtain ⟨e, he, rfl⟩ := hop
+    exact hs e he
 
 /-- the same for the event-level schedules the driver replays -/
-theorem multi_app_noninterference_events (progs : ThreadId → Prog) (evs : List WsgiConc.Ev) (a : AppId) :
+theorem multi_app_noninterference_events (progs : ThreadId → Prog) (evs : List WsgiConc.Ev) (a : AppId)
+    (hs : ∀ e ∈ (WsgiConc.runEvents .perInstance (Machine.start progs) evs).1.log, e.acc.sharedOk) :
     (((WsgiConc.runEvents .perInstance (Machine.start progs) evs).1.log.filter (fun e => e.app = a)).map (·.res)) =
-      (runOps .perInstance Heap.empty
+      (runOps .perInstance Heap.boot
         (((WsgiConc.runEvents .perInstance (Machine.start progs) evs).1.log.map Event.op).filter
           (fun op => op.app = a))).2 := by
-  rw [WsgiConc.runEvents_eq_run]
-  exact multi_app_noninterference_machine progs _ a
+  rw [WsgiConc.runEvents_eq_run] at hs ⊢
+  exact multi_app_noninterference_machine progs _ a hs
 
-/-- tie to the source: the generated table still says that the stores and `HeaderDict._ts` are
-`threading.local` objects and that the decorated attribute lists are the ones the model's
-`Request.__init__` / `Response.__init__` assign -/
+/-- tie to the source: the stores and `HeaderDict._ts` are `threading.local` objects (the attribute
+lists themselves do not matter for this property: an attribute that is not thread-local is a plain
+slot of its instance, hence of its application), the shared error objects carry no cookies,
+exception or traceback, and a probe that made requests fail onto each of them left them unchanged -/
 theorem ts_tables_as_modelled :
-    Gen.requestTsProps = ["environ", "_env_get"] ∧
-    Gen.responseTsProps = ["_status_line", "_status_code", "_headers", "_cookies", "body"] ∧
     Gen.headerDictTsThreadLocal = true ∧ Gen.storesAreThreadLocal = true ∧
-    Gen.requestStoreName = "_ts_props" ∧ Gen.responseStoreName = "_ts_props" := by
+    Gen.requestStoreName = "_ts_props" ∧ Gen.responseStoreName = "_ts_props" ∧
+    (∀ row ∈ Gen.errorsMap, row.2.2.2.2.2 = true) ∧ Gen.errorsMapReadOnly = true := by
   decide
 
 /-- tie to the source: every plain (not thread-local) slot or module object that the probe saw
@@ -87,6 +104,17 @@ example : readsOf tsPropsShared 1 Heap.empty witnessOps ≠
 example : (readsOf .perInstance 1 Heap.empty witnessOps).getLast? = some (.val (.str "/one")) := by
   decide
 
+/-! the hypothesis on shared objects is needed: if some code of application 2 wrote the shared
+`errors_map` entry, application 1 would read the written value -/
+
+def sharedWitness : List Op :=
+  [⟨0, 2, .errSet "BodySizeError" "exception" (.val (.str "ValueError('secret of app 2')"))⟩,
+   ⟨0, 1, .errGet "BodySizeError" "exception"⟩]
+
+example : readsOf .perInstance 1 Heap.boot sharedWitness ≠
+    (runOps .perInstance Heap.boot (sharedWitness.filter (fun op => op.app = 1))).2 := by
+  decide
+
 end Witness
 
 section NonVacuity
@@ -96,15 +124,30 @@ open WsgiConc
 runs it -/
 def nestedExample : List Item :=
   [.construct 1, .construct 2,
-   .serve (.mk 1 [("PATH_INFO", .str "/a"), ("REQUEST_METHOD", .str "GET")]
-     (.handler [.path, .nested (.mk 2 [("PATH_INFO", .str "/b"), ("REQUEST_METHOD", .str "GET")]
+   .serve (.mk 1 [("PATH_INFO", .str "/a"), ("REQUEST_METHOD", .str "GET")] false [] [] []
+     (.handler [.path, .nested (.mk 2 [("PATH_INFO", .str "/b"), ("REQUEST_METHOD", .str "GET")] false [] [] []
         (.handler [.path] (.ret "b"))), .path] (.ret "a")))]
 
-/-- the run is not trivial: application 1's handler reads `/a` before and after the nested call -/
+/-- the hypothesis of the machine theorem holds for it: no step of the run writes a shared object -/
+example : ∀ e ∈ (runEvents .perInstance (Machine.start fun t => if t = 0 then threadProg nestedExample else .done)
+    [.finish 0]).1.log, e.acc.sharedOk := by
+  decide +kernel
+
+/-- two applications failing onto the same shared mapped error (`errors_map[BodySizeError]`), one
+nested in the other: each gets the 413 page with its own URL -/
+def mappedExample : List Item :=
+  [.construct 1, .construct 2,
+   .serve (.mk 1 [("PATH_INFO", .str "/a"), ("REQUEST_METHOD", .str "POST"), ("#url", .str "http://h/a")] false [] [] []
+     (.handler [.nested (.mk 2 [("PATH_INFO", .str "/b"), ("REQUEST_METHOD", .str "POST"), ("#url", .str "http://h/b")]
+        true [] [] [] (.handler [] (.failForm "BodySizeError")))] (.failForm "BodySizeError")))]
+
 example :
-    ((((runEvents .perInstance (Machine.start fun t => if t = 0 then threadProg nestedExample else .done)
-      [.finish 0]).1.threads 0).out.map (·.2)).filter (·.startsWith "r:"))
-      = ["r:s/a", "r:s/b", "r:s/a"] := by
+    (((runEvents .perInstance (Machine.start fun t => if t = 0 then threadProg mappedExample else .done)
+      [.finish 0]).1.threads 0).out.map (·.2))
+      = ["w:413 Request Entity Too Large\nContent-Length: 74\nContent-Type: text/html; charset=UTF-8\n\n" ++
+           "D(413 Request Entity Too Large|http://h/b|Request entity too large|None|~)",
+         "w:413 Request Entity Too Large\nContent-Length: 67\nContent-Type: text/html; charset=UTF-8\n\n" ++
+           "E(413 Request Entity Too Large|http://h/a|Request entity too large)"] := by
   decide +kernel
 
 /-- the same arrangement with the pre-fix decorator: after the nested call the handler of
